@@ -55,12 +55,12 @@ def run_real(template, tmpl: dict, plan: list, handler_cfg) -> dict:
 
 
 def run_model(tmpl: dict, plan: list, handler_cfg, case_once=True,
-              guard_tags=True) -> dict:
+              guard_tags=True, leaky_scope=False) -> dict:
     handler = None
     if handler_cfg is not None:
         handler = Handler(handler_cfg.get("fail_with"))
     m = Model(tmpl, plan, handler, case_once=case_once,
-              guard_tags=guard_tags)
+              guard_tags=guard_tags, leaky_scope=leaky_scope)
     res = m.run()
     if res["out"] is not None:
         res["out"] = norm_out(res["out"])
